@@ -286,7 +286,7 @@ def _retarget(pkg, name, fn):
 
 
 def prim_changes(p):
-    table = {"int32": ["int64", "int16", "uint32", "float32", "float64", "string", "uint8"], "string": ["int32", "float64", "uint64"],
+    table = {"int32": ["int64", "int16", "uint32", "float32", "float64", "string", "uint8"], "string": ["int32", "float64", "uint64", "int8", "uint16"],
              "float64": ["float32", "int32", "string", "int64"], "float32": ["float64", "int16", "string"],
              "uint32": ["int32", "uint64", "float32", "string"], "int64": ["int32", "float64", "string"]}
     return table.get(p, ["int32"] if p not in ("bool", "date", "time", "datetime", "complexfloat32", "complexfloat64") else [])
